@@ -57,3 +57,58 @@ Proof. intros a b v. unfold rel, rel_spec. destruct (file_items a) as [x|] eqn:E
   - split. intros <-. left; auto. destruct v; auto; try (intros (x' & y' & H & _); discriminate).
     intros (x' & H & _); discriminate.
 Qed.
+
+(* ---------------- round 7: the canonical printer is injective ---------------- *)
+Local Open Scope char_scope.
+Lemma esc_inj a : forall a' r r', esc a ++ r = esc a' ++ r' -> a = a' /\ r = r'.
+Proof. induction a as [|c a IH]; intros [|c' a'] r r' H; cbn [esc app] in H.
+  - inversion H. auto.
+  - discriminate H.
+  - discriminate H.
+  - inversion H as [[Hc Hr]]. destruct (IH _ _ _ Hr) as [-> ->]. auto. Qed.
+
+Lemma sx_nested_ind (P : sx -> Prop) :
+  (forall a, P (SA a)) -> (forall l, Forall P l -> P (SL l)) -> forall s, P s.
+Proof. intros Ha Hl. fix go 1. intros [a|l]. apply Ha. apply Hl.
+  induction l as [|x r IH]; constructor; [apply go|exact IH]. Qed.
+
+Lemma sx_show_head x : exists c t, sx_show x = c :: t /\ c <> ")".
+Proof. destruct x as [a|l]; cbn [sx_show]; eexists; eexists; (split; [reflexivity|]); intros E; discriminate E. Qed.
+
+Definition show_pf (s : sx) : Prop := forall s' r r', sx_show s ++ r = sx_show s' ++ r' -> s = s' /\ r = r'.
+
+Lemma show_list_pf l : Forall show_pf l -> forall l' r r',
+  flat_map (fun x => sx_show x) l ++ ")" :: r = flat_map (fun x => sx_show x) l' ++ ")" :: r' -> l = l' /\ r = r'.
+Proof. induction 1 as [|x l Hx _ IH]; intros [|x' l'] r r' H; cbn [flat_map app] in H.
+  - inversion H. auto.
+  - exfalso. destruct (sx_show_head x') as (c & t & E & N). rewrite E in H. cbn [app] in H. inversion H. congruence.
+  - exfalso. destruct (sx_show_head x) as (c & t & E & N). rewrite E in H. cbn [app] in H. inversion H. congruence.
+  - rewrite <- !app_assoc in H. destruct (Hx _ _ _ H) as [-> H']. destruct (IH _ _ _ H') as [-> ->]. auto. Qed.
+
+Lemma sx_show_prefix_free : forall s, show_pf s.
+Proof. apply sx_nested_ind.
+  - intros a [a'|l'] r r' H; cbn [sx_show app] in H.
+    + inversion H as [H1]. destruct (esc_inj _ _ _ _ H1) as [-> ->]. auto.
+    + discriminate H.
+  - intros l Hl [a'|l'] r r' H; cbn [sx_show app] in H.
+    + discriminate H.
+    + inversion H as [H1]. rewrite <- !app_assoc in H1. cbn [app] in H1.
+      destruct (show_list_pf l Hl _ _ _ H1) as [-> ->]. auto. Qed.
+
+Theorem sx_show_inj : forall s s', sx_show s = sx_show s' -> s = s'.
+Proof. intros s s' H. destruct (sx_show_prefix_free s s' [] []) as [E _]; auto. rewrite !app_nil_r. exact H. Qed.
+
+Lemma map_inj {A B} (f : A -> B) : (forall x y, f x = f y -> x = y) -> forall l l', map f l = map f l' -> l = l'.
+Proof. intros Hf. induction l as [|x l IH]; intros [|y l'] H; cbn [map] in H; try discriminate; auto.
+  inversion H. f_equal; auto. Qed.
+
+(* the verdict same-items means: both versions parse and their items have the same s-expressions, in order *)
+Theorem rel_same_items_sx : forall a b, rel a b = SameItems <->
+  exists ma mb, parse_module a = Some ma /\ parse_module b = Some mb /\ map sx_item ma = map sx_item mb.
+Proof. intros a b. rewrite rel_exact. unfold rel_spec, file_items. split.
+  - intros (x & Ha & Hb). destruct (parse_module a) as [ma|]; [|discriminate]. destruct (parse_module b) as [mb|]; [|discriminate].
+    exists ma, mb. repeat split; auto. inversion Ha; inversion Hb; subst.
+    match goal with H : map _ mb = map _ ma |- _ => rename H into E end.
+    rewrite <- !(map_map sx_item sx_show) in E. symmetry. apply (map_inj sx_show sx_show_inj). exact E.
+  - intros (ma & mb & -> & -> & E). exists (map (fun it => sx_show (sx_item it)) ma). split; auto.
+    rewrite <- !(map_map sx_item sx_show). rewrite E. reflexivity. Qed.
